@@ -90,14 +90,21 @@ pub struct Dec<'a> {
     pub dedup_forms: Vec<bool>,
     /// the largest non-negative count met at a sequence whose elements have an empty encoding
     pub zero_width_max: usize,
+    /// a lenient position was passed in the window being read: where the client codec left the cursor is not the
+    /// format's business, so nothing more can be said about this window (reads answer `Unsupported`)
+    cursor_lost: bool,
+    /// … nor about the string table afterwards
+    tables_lost: bool,
     depth: usize,
 }
 
 const MAX_DEPTH: usize = 4000;
+/// window cursor after a lenient position
+const POISONED: usize = usize::MAX;
 
 impl<'a> Dec<'a> {
     pub fn new(buf: &'a [u8]) -> Self {
-        Dec { buf, pos: 0, end: buf.len(), strings: Vec::new(), annots: Vec::new(), annotate: false, forms: Vec::new(), dedup_forms: Vec::new(), zero_width_max: 0, depth: 0 }
+        Dec { buf, pos: 0, end: buf.len(), strings: Vec::new(), annots: Vec::new(), annotate: false, forms: Vec::new(), dedup_forms: Vec::new(), zero_width_max: 0, cursor_lost: false, tables_lost: false, depth: 0 }
     }
 
     pub fn pos(&self) -> usize {
@@ -112,6 +119,9 @@ impl<'a> Dec<'a> {
     }
 
     fn u8(&mut self) -> Result<u8, DecErr> {
+        if self.cursor_lost {
+            return err(ErrKind::Unsupported, "read after a lenient position in the same window");
+        }
         if self.pos >= self.end {
             return err(ErrKind::InputEnded, "u8");
         }
@@ -121,6 +131,9 @@ impl<'a> Dec<'a> {
     }
 
     fn take(&mut self, n: usize) -> Result<&'a [u8], DecErr> {
+        if self.cursor_lost {
+            return err(ErrKind::Unsupported, "read after a lenient position in the same window");
+        }
         if n > self.end - self.pos {
             return err(ErrKind::InputEnded, format!("need {n} bytes, {} left in window", self.end - self.pos));
         }
@@ -190,6 +203,9 @@ impl<'a> Dec<'a> {
     }
 
     fn dedup_string(&mut self) -> Result<String, DecErr> {
+        if self.tables_lost {
+            return err(ErrKind::Unsupported, "string table after a lenient position");
+        }
         let off = self.pos;
         let n = self.vi()?;
         self.dedup_forms.push(n >= 0);
@@ -361,6 +377,7 @@ impl<'a> Dec<'a> {
                 Ok(Val::Bytes(b.to_vec()))
             }
             Ty::Wrap(t) => self.decode(t),
+            Ty::Lenient(t) => self.lenient(t),
             Ty::Uuid => Ok(Val::Bytes(self.take(16)?.to_vec())),
             Ty::Weekday | Ty::Month => Ok(Val::U(self.be(1)?)),
             Ty::FixedOffset => {
@@ -482,14 +499,33 @@ impl<'a> Dec<'a> {
         chunk: usize,
         f: impl FnOnce(&mut Self) -> Result<T, DecErr>,
     ) -> Result<T, DecErr> {
-        let (saved_pos, saved_end) = (self.pos, self.end);
+        if windows[chunk].0 == POISONED {
+            return err(ErrKind::Unsupported, "window read after a lenient position");
+        }
+        let (saved_pos, saved_end, saved_lost) = (self.pos, self.end, self.cursor_lost);
         self.pos = windows[chunk].0;
         self.end = windows[chunk].1;
+        self.cursor_lost = false;
         let r = f(self);
-        windows[chunk].0 = self.pos;
+        windows[chunk].0 = if self.cursor_lost { POISONED } else { self.pos };
         self.pos = saved_pos;
         self.end = saved_end;
+        self.cursor_lost = saved_lost;
         r
+    }
+
+    /// A lenient position: whatever the client codec made of the bytes, the rest of *this* window is its business.
+    /// The inner value is decoded on a best-effort basis for the annotations only; the result is never compared.
+    fn lenient(&mut self, inner: &Ty) -> Result<Val, DecErr> {
+        let r = self.decode(inner);
+        if let Err(e) = &r {
+            if e.kind == ErrKind::Unsupported {
+                return r;
+            }
+        }
+        self.cursor_lost = true;
+        self.tables_lost = true;
+        Ok(r.unwrap_or(Val::Unit))
     }
 
     pub fn record(&mut self, schema: &RecordSchema) -> Result<Val, DecErr> {
